@@ -128,6 +128,8 @@ def make_alg(cfg: dict):
         kw['wrapper'] = FlakyWrapper(int(str(cfg['wrapper'])[5:] or 1))
     elif cfg.get('wrapper') == 'reentrant':
         kw['wrapper'] = ReentrantWrapper()
+    elif cfg.get('wrapper') == 'counting':
+        kw['wrapper'] = CountingWrapper()
     if cfg.get('symbolcls') == 'sympy':
         import sympy
         kw['codegen_symbolcls'] = sympy.Symbol
@@ -158,6 +160,21 @@ class FlakyWrapper:
         if self.n == self.fail_at:
             raise WrapperFailure(f'wrapper failed on its application number {self.n}')
         return f
+
+
+class CountingWrapper:
+    """dispatcher-style wrapper (a plain closure without __wrapped__) that counts how often each generated
+    function is handed to it: wrapping stands for JIT compilation, which must happen once per function."""
+    def __init__(self):
+        self.applied = {}
+
+    def __call__(self, f):
+        n = getattr(f, '__name__', repr(f))
+        self.applied[n] = self.applied.get(n, 0) + 1
+
+        def dispatch(*a, **k):
+            return f(*a, **k)
+        return dispatch
 
 
 class ReentrantWrapper:
